@@ -82,7 +82,10 @@ func groupBounds(s *sink, g *hx.Gen) {
 		}
 		vals = append(vals, hx.Uint("uint64", math.MaxUint64), hx.Uint("uint64", 1<<63), hx.F64(9.223372036854775807e18),
 			hx.F64(-9.223372036854775808e18), hx.F64(0.5), hx.F64(math.NaN()), hx.F64(math.Inf(1)), hx.Bool(true), hx.Bool(false),
-			hx.Str("9223372036854775808"), hx.Str("-9223372036854775809"), hx.Str(" 5"), hx.Str("+5"), hx.Str("5.0"), hx.Str(""), hx.Nil())
+			hx.Str("9223372036854775808"), hx.Str("-9223372036854775809"), hx.Str(" 5"), hx.Str("+5"), hx.Str("5.0"), hx.Str(""), hx.Nil(),
+			// numerals only decimal notation denotes: zero padding is not octal, no prefixes, no separators, no blanks
+			hx.Str("010"), hx.Str("-010"), hx.Str("08"), hx.Str("0777"), hx.Str("0x10"), hx.Str("0b101"), hx.Str("0o17"), hx.Str("1_000"),
+			hx.Str(" "), hx.Str("\t"), hx.Str("\n \r"), hx.Str("5 "), hx.Str("1e3"), hx.Str("٣"), hx.Str("--5"), hx.Str("+-5"), hx.Str("0"), hx.Str("-0"), hx.Str("+0"), hx.Str("00"))
 	case "float":
 		var pts []float64
 		add := func(f float64) { pts = append(pts, math.Nextafter(f, math.Inf(-1)), f, math.Nextafter(f, math.Inf(1))) }
